@@ -17,7 +17,8 @@ COQCHK_ADMIT = ["UF.CrcHdShard%02d" % i for i in range(32)]
 
 def streams(seed, tier):
     r = random.Random(seed * 7919 + 16)
-    n = 600 if tier == "quick" else 6000
+    import os
+    n = 600 if tier == "quick" else 600 * int(os.environ.get("VERIF_THOROUGH_FACTOR", "10"))
     cases = []
     hist = {}
     def add(kind, ops):
